@@ -45,6 +45,8 @@ def BOUND(tier):
 
 def cases(tier, seed):
     quick = tier == "quick"
+    for name in repeat_objects():
+        yield {"k": "repeat", "obj": name}
     for nbas in range(1, (6 if quick else 10) + 1):
         for omega in (0.5, 1.3):
             for x0 in (0.0, 0.7):
@@ -588,8 +590,67 @@ def run_quantity(desc):
     return {"nontrivial": True, "outcome": "quantity", "viol": viol}
 
 
+def repeat_objects():
+    """name -> factory of one basis object whose op_mat is then asked for whole rounds of symbols"""
+    from renormalizer.model import basis as ba
+    R = {}
+    for dvr in (False, True):
+        R[f"sho:dvr={dvr}"] = (lambda dvr=dvr: ba.BasisSHO("v", 1.3, 4, x0=0.7, dvr=dvr), SHO_SYMBOLS)
+        for endpoint in (False, True):
+            R[f"sine:dvr={dvr}:endpoint={endpoint}"] = (lambda dvr=dvr, endpoint=endpoint: ba.BasisSineDVR("q", 4, -1.5, 2.0, endpoint=endpoint, dvr=dvr),
+                                                         list(SINE_SYMBOLS) + ["x^4", "x^3", "x x x x", "x^6"])
+    R["halfspin"] = (lambda: ba.BasisHalfSpin("s"), SPIN_SYMBOLS)
+    R["multi"] = (lambda: ba.BasisMultiElectron(["e0", "e1", "e2"], [1, 1, 1]), None)
+    R["multivac"] = (lambda: ba.BasisMultiElectronVac(["e0", "e1"]), None)
+    return R
+
+
+def run_repeat(desc):
+    """one basis OBJECT is asked for its matrices in several rounds (every symbol, three times, in two orders, also as Op with a factor):
+    every answer must equal the answer of a freshly constructed object -- anything the object remembers between calls shows up here"""
+    from renormalizer.model import Op
+    factory, symbols = repeat_objects()[desc["obj"]]
+    viol = {}
+    n = 0
+    if symbols is None:
+        b0 = factory()
+        symbols = [Op(r"a^\dagger a", [d1, d2]) for d1 in b0.dofs for d2 in b0.dofs]
+        if desc["obj"] == "multivac":
+            symbols += [Op(r"a^\dagger", d) for d in b0.dofs] + [Op("a", d) for d in b0.dofs]
+    def ask(b, sym, factor=None):
+        if isinstance(sym, Op):
+            return np.asarray(b.op_mat(sym if factor is None else sym * factor))
+        return np.asarray(b.op_mat(sym if factor is None else Op(sym, b.dofs[0], factor)))
+    fresh = {}
+    accepted = []
+    for sym in symbols:
+        try:
+            fresh[str(sym)] = ask(factory(), sym)
+            accepted.append(sym)
+        except Exception:
+            continue          # symbols this basis does not know are not part of the rounds
+    obj = factory()
+    for rnd, order in enumerate((accepted, accepted[::-1], accepted, accepted)):
+        for sym in order:
+            n += 1
+            fac = None if rnd < 3 else 0.5
+            try:
+                got = ask(obj, sym, fac)
+            except Exception as e:
+                sig = f"C16:repeat:exception:{desc['obj'].split(':')[0]}:{type(e).__name__}"
+                viol.setdefault(sig, {"sig": sig, "msg": f"{desc['obj']}: round {rnd + 1}, op_mat({sym}) raised {e!r} although a fresh object accepts it"})
+                continue
+            ref = fresh[str(sym)] * (1 if fac is None else fac)
+            if got.shape != ref.shape or not np.allclose(got, ref, atol=1e-12 * max(1.0, np.abs(ref).max())):
+                sig = f"C16:repeat:{desc['obj'].split(':')[0]}:round{min(rnd + 1, 2)}"
+                viol.setdefault(sig, {"sig": sig, "msg": f"{desc['obj']}: in round {rnd + 1} op_mat({sym}) of the SAME basis object differs from the matrix a fresh object returns by {np.abs(got - ref).max() if got.shape == ref.shape else 'shape'}"})
+    return {"nontrivial": n > 0, "counters": {"op_mat_calls": n}, "outcome": "repeat:ok" if not viol else "repeat:viol", "viol": list(viol.values()), "sample": {"desc": desc, "symbols": len(accepted)}}
+
+
 def run_case(desc, seed):
     k = desc["k"]
+    if k == "repeat":
+        return run_repeat(desc)
     if k == "sho":
         return run_sho(desc)
     if k == "sho-commutator":
